@@ -84,7 +84,8 @@ def split_url(url: str) -> SplitURLType:
             if bracketed_host[:1] == "v":
                 if not re.match(r"\Av[a-fA-F0-9]+\..+\Z", bracketed_host):
                     raise ValueError("IPvFuture address is invalid")
-            elif ":" not in bracketed_host:
+            elif ":" not in bracketed_host.partition("%")[0]:
+                # a ":" of the zone id does not make the address an IPv6 one
                 raise ValueError("An IPv4 address cannot be in brackets")
     if has_hash:
         url, _, fragment = url.partition("#")
